@@ -326,15 +326,15 @@ impl WmoParser {
         let mut textures = Vec::new();
         let mut offset_index_map = HashMap::new();
 
-        // MOTX chunk is a list of null-terminated strings
-        let mut current_string = String::new();
+        // MOTX chunk is a list of null-terminated strings (UTF-8, as the writer emits them)
+        let mut current_string: Vec<u8> = Vec::new();
 
         for (i, &byte) in motx_data.iter().enumerate() {
             if byte == 0 {
                 // End of string
                 if !current_string.is_empty() {
-                    textures.push(current_string);
-                    current_string = String::new();
+                    textures.push(String::from_utf8_lossy(&current_string).into_owned());
+                    current_string.clear();
                 }
             } else {
                 if current_string.is_empty() {
@@ -343,7 +343,7 @@ impl WmoParser {
                     offset_index_map.insert(offset, texture_index);
                 }
                 // Add to current string
-                current_string.push(byte as char);
+                current_string.push(byte);
             }
         }
 
